@@ -22,6 +22,7 @@ type Ctx struct {
 	strOrder  []string
 	structOf  map[string]*types.Struct // sort → struct type
 	structNm  map[string]string        // sort → display name
+	structGo  map[string]types.Type    // sort → Go type (to re-declare the datatype in another Ctx)
 	compSort  map[string]string        // heap component → sort
 	ifaceTags map[string]int           // concrete type sort/name → tag
 	ifaceBox  map[string]string        // payload sort → constructor name
@@ -233,6 +234,10 @@ func (c *Ctx) structSort(t types.Type, u *types.Struct) string {
 	}
 	c.sortSeen[name] = true
 	c.structOf[name] = u
+	if c.structGo == nil {
+		c.structGo = map[string]types.Type{}
+	}
+	c.structGo[name] = t
 	c.structNm[name] = shortType(t)
 	var fields []string
 	for i := 0; i < u.NumFields(); i++ {
